@@ -108,11 +108,11 @@ func c18ExtCases(c *Ctx, dotCase func(gen string, g *graph.Graph, a *graph.DotAt
 		s := c18LongStr(r, true)
 		c.Case("esc-long", L(S("esc"), PS(s)), PS(graph.VerifEscapeForDot(s)), true, "op:esc", "long")
 	}
-	for i := 0; i < c.Budget(60, 800); i++ {
+	for i := 0; i < c.Budget(45, 800); i++ {
 		g, a, cfg := c18SynthGraph(r, true, !r.P(1, 3))
 		dotCase("dot-synth-long", g, a, cfg, "long")
 	}
-	for i := 0; i < c.Budget(30, 800); i++ {
+	for i := 0; i < c.Budget(20, 800); i++ {
 		po := c18POpts{meta: true, fileMeta: r.P(1, 2), unitMeta: r.P(1, 3), diff: r.P(1, 4)}
 		p := c18Profile(r, po)
 		ro := c18ROpts{callTree: r.P(1, 3), dropNeg: r.P(1, 4), trim: r.P(1, 4), gran: PickS(r, grans), nodeCount: 1 + r.Intn(3)}
@@ -134,7 +134,7 @@ func c18ExtCases(c *Ctx, dotCase func(gen string, g *graph.Graph, a *graph.DotAt
 
 	// ---- special subpositions, mixed zero / non-zero addresses
 	c18NoNL = true
-	for i := 0; i < c.Budget(220, 2500); i++ {
+	for i := 0; i < c.Budget(170, 2500); i++ {
 		p := c18AddrProfile(r, r.P(1, 3))
 		ro := c18ROpts{gran: "addresses", callTree: r.P(1, 8)}
 		tags := []string{"gran:addresses", "mixed-addr"}
@@ -147,7 +147,7 @@ func c18ExtCases(c *Ctx, dotCase func(gen string, g *graph.Graph, a *graph.DotAt
 	}
 
 	// ---- -tagroot / -tagleaf pseudo frames, both graph outputs
-	for i := 0; i < c.Budget(60, 1000); i++ {
+	for i := 0; i < c.Budget(36, 1000); i++ {
 		meta := r.P(2, 3)
 		po := c18POpts{meta: meta, fileMeta: r.P(1, 4), unitMeta: r.P(1, 8)}
 		p := c18Profile(r, po)
